@@ -34,7 +34,9 @@ pub fn make_case_opts(src: &mut Src, knobs: &Knobs, fragment: bool, latin1: bool
         o.names = Names::Latin;
     }
     let doc = if fragment { gen::gen_fragment(src, &o) } else { gen::gen_document(src, &o) };
-    let st = Style { fragment, prolog: prolog && !latin1, ..Style::rich() };
+    // the wide option also switches on empty CDATA sections inside text runs (their content
+    // position is where a text span ends)
+    let st = Style { fragment, prolog: prolog && !latin1, empty_cdata: wide_prefixes, ..Style::rich() };
     let rendered = render::render(src, &doc, st)?;
     Ok(Case { doc, rendered, fragment })
 }
@@ -102,22 +104,27 @@ impl Property for C02 {
             knobs: Knobs { max_nodes, variant, ..Default::default() },
         };
         match tier {
-            Tier::Quick => vec![mk("doc", 300_000, 0, 24), mk("fragment", 150_000, 1, 16), mk("bytes", 150_000, 2, 16)],
+            Tier::Quick => vec![mk("doc", 250_000, 0, 24), mk("fragment", 120_000, 1, 16), mk("bytes", 120_000, 2, 16), mk("doc-wide", 100_000, 3, 24), mk("fragment-wide", 50_000, 4, 16)],
             Tier::Thorough => vec![
                 mk("doc", 2_000_000, 0, 24),
                 mk("doc-big", 100_000, 0, 80),
                 mk("fragment", 600_000, 1, 16),
                 mk("bytes", 600_000, 2, 16),
+                mk("doc-wide", 800_000, 3, 24),
+                mk("fragment-wide", 300_000, 4, 16),
             ],
         }
     }
 
     fn check(&self, src: &mut Src, ctx: &mut Ctx) -> Verdict {
-        let variant = ctx.knobs.variant;
+        // plans doc-wide / fragment-wide: non-ASCII prefixes, local names such as id / lang / space
+        // (which are not xml:id / xml:lang / xml:space), empty CDATA sections inside text runs
+        let wide = ctx.knobs.variant >= 3;
+        let variant = if wide { ctx.knobs.variant - 3 } else { ctx.knobs.variant };
         let fragment = variant == 1;
         let enc = if variant == 2 { src.choice(5) } else { 0 };
         let latin1 = variant == 2 && enc == 4;
-        let case = match make_case(src, &ctx.knobs, fragment, latin1, !(variant == 2 && enc >= 2)) {
+        let case = match make_case_opts(src, &ctx.knobs, fragment, latin1, !(variant == 2 && enc >= 2), wide) {
             Ok(c) => c,
             Err(e) => {
                 ctx.label("unrenderable");
